@@ -74,6 +74,7 @@ package rlp
 //@ func putint(b []byte, i uint64) (size int)
 //@   serves C01
 //@   requires len(b) >= isz(i)
+//@   uses bytes8(i)
 //@   modifies b[..]
 //@   ensures size == isz(i) && be(b, size) == i
 //@   ensures i > 0 ==> b[0] != 0
